@@ -10,7 +10,7 @@ rmdir $WT
 git -C /repo worktree add -q --detach $WT HEAD || exit 2
 mkdir -p $OUT
 if [ "$(readlink -f $SRC)" != "$(readlink -f $OUT)" ]; then cp $SRC/patch.diff $OUT/patch.diff; cp $SRC/demo.py $OUT/demo.py; [ -f $SRC/README.md ] && cp $SRC/README.md $OUT/README.md; fi
-cd $WT
+cd $WT; mkdir -p $WT/_seed
 PYTHONPATH=$WT /venv/bin/python -W ignore $OUT/demo.py > $OUT/demo_clean.txt 2>&1; D0=$?
 git apply $OUT/patch.diff || { echo "patch does not apply"; git -C /repo worktree remove --force $WT; exit 2; }
 PYTHONPATH=$WT /venv/bin/python -W ignore -c "import taurex" >/dev/null 2>&1; IMP=$?
